@@ -37,10 +37,12 @@ PD(H) == /\ Minor1(H) > 0 /\ (Dm < 2 \/ Minor2(H) > 0) /\ (Dm < 3 \/ Minor3(H) >
 Sym(H) == \A i, j \in 1..Dm : FAbs(H[i][j] - H[j][i]) <= 2
 \* minors too close to the resolution are not decided
 Resolved(H) == Minor1(H) > 64 /\ (Dm < 2 \/ FAbs(Minor2(H)) > 64) /\ (Dm < 3 \/ FAbs(Minor3(H)) > 64)
-\* the property's proviso (the localisation reaches at least one other grid point) cannot be evaluated from public
-\* state: when a localisation weight vector concentrates on a single grid point the covariance normalisation is 0/0
-\* and the bandwidth is not finite - such cases are not decided
-BwClause == IF ~C.finite THEN "inconclusive"
+\* the property's proviso (the localisation reaches at least one other grid point): C.reach[g] is the share (fixed
+\* point) that the OTHER grid points have in the localised weights used for grid point g's covariance, observed at
+\* the module function _local_population; <<>> when it could not be observed.  A share of at least 2^-10 for every
+\* grid point counts as reached; otherwise a non-finite bandwidth (0/0 covariance normalisation) is not decided.
+Reached == C.reach # <<>> /\ \A g \in 1..Len(C.reach) : C.reach[g] >= 16
+BwClause == IF ~C.finite THEN (IF Reached THEN "bandwidth-not-finite-although-the-localisation-reaches-other-grid-points" ELSE "inconclusive")
             ELSE IF \E g \in 1..NG : ~Sym(C.H[g]) THEN "bandwidth-not-symmetric"
             ELSE IF \E g \in 1..NG : Resolved(C.H[g]) /\ ~PD(C.H[g]) THEN "bandwidth-not-positive-definite"
             ELSE "ok"
